@@ -142,3 +142,24 @@ CHECKS["C08"] = {
         "result + unexpected success)." + TRUSTED
     ),
 }
+
+CHECKS["C01"] = {
+    "technique": "typestate by abstract interpretation (finite domains, inlined callees, event monitors) + exceptional CFG rules",
+    "text": (
+        "The runner's own code is interpreted abstractly with all user code symbolic (returns a non-sentinel value or "
+        "raises) and with result methods / addOnException handlers allowed to raise: every abstract exit state of "
+        "RunTest._run_prepared_result (389 states, 20 distinct event signatures on the pinned tree) has exactly one "
+        "startTest and one stopTest, and every exit that is not a framework-exception path has exactly one outcome "
+        "inside the bracket; no user exception escapes; the sentinel is returned iff an exception was recorded; user "
+        "code runs under a BaseException handler that reaches the recorder; the dispatch must read the whole recorded "
+        "list; unhandled kinds go to last_resort and are re-raised inside the bracket; run() pairs startTestRun/"
+        "stopTestRun iff it created the result. This covers the whole cross product of per-stage faults at once, "
+        "which is exactly what the suite cannot enumerate."
+    ),
+    "note": (
+        "Behaviour when a user addOnException handler or a result method raises is only required to keep the bracket. "
+        "Per-flavour delivery of the calls is C08. Two genuine defects are recorded known findings (last exception "
+        "wins; empty MultipleExceptions yields no outcome). Assumes user code cannot obtain the runner's private "
+        "sentinel." + TRUSTED
+    ),
+}
